@@ -26,17 +26,94 @@ from . import common as cm
 # the exchange's documented character set for customer references: letters, digits and - . _ + * : ; ~
 DOC_VALID = set(string.ascii_letters) | set(string.digits) | set("-._+*:;~")
 HEX = "0123456789abcdef"
-TIMEOUT = 60000
+TIMEOUT = 20000
 
 
 class CannotEncode(HarnessError):
     pass
 
 
+class Q:
+    """one string query: terms are built with z3's API, the verdict comes from cvc5 (its string solver decides these
+    queries in milliseconds where z3's sequence solver is erratic: measured unknown after 30-120 s on some runs); z3 is the
+    fallback when cvc5 is not importable or answers unknown.  The SMT-LIB text handed to cvc5 is z3's own rendering of the
+    same assertions, so both solvers see the same encoding."""
+    stats = {"cvc5": 0, "z3": 0, "secs": 0.0}
+
+    def __init__(self):
+        self.s = z3.Solver()
+        self.s.set("timeout", 10000)
+        self.vals = {}
+        self.vars = {}
+
+    def add(self, *a):
+        self.s.add(*a)
+
+    def declare(self, *vs):
+        for v in vs:
+            self.vars[str(v)] = v
+
+    def check(self, name):
+        import time
+        t0 = time.perf_counter()
+        r = self._cvc5()
+        if r == "unknown":
+            r = str(self.s.check())
+            Q.stats["z3"] += 1
+            if r == "sat":
+                m = self.s.model()
+                self.vals = {n: m.eval(v, model_completion=True).as_string() for n, v in self.vars.items()}
+        Q.stats["secs"] += time.perf_counter() - t0
+        if r == "unknown":
+            raise HarnessError("solver unknown on %s (cvc5 and z3)" % name)
+        return r
+
+    def _cvc5(self):
+        try:
+            import cvc5
+        except ImportError:
+            return "unknown"
+        try:
+            slv = cvc5.Solver()
+            slv.setOption("produce-models", "true")
+            slv.setOption("strings-exp", "true")
+            slv.setOption("tlimit-per", str(TIMEOUT))
+            slv.setLogic("ALL")
+            sm = cvc5.SymbolManager(slv.getTermManager()) if hasattr(slv, "getTermManager") else cvc5.SymbolManager(slv)
+            p = cvc5.InputParser(slv, sm)
+            txt = "\n".join(l for l in self.s.to_smt2().splitlines() if not l.startswith("(set-info") and not l.startswith("(check-sat"))
+            p.setStringInput(cvc5.InputLanguage.SMT_LIB_2_6, txt, "q")
+            while True:
+                cmd = p.nextCommand()
+                if cmd.isNull():
+                    break
+                cmd.invoke(slv, sm)
+            r = slv.checkSat()
+            Q.stats["cvc5"] += 1
+            if r.isSat():
+                self.vals = {}
+                for t in sm.getDeclaredTerms():
+                    if str(t) in self.vars:
+                        self.vals[str(t)] = t and _unescape(slv.getValue(t).getStringValue())
+                for n in self.vars:
+                    self.vals.setdefault(n, "")
+                return "sat"
+            return "unsat" if r.isUnsat() else "unknown"
+        except Exception:  # noqa  (parser / option differences between cvc5 versions): fall back to z3
+            return "unknown"
+
+    def value(self, term):
+        """value of a z3 string term under the model found"""
+        subs = [(v, z3.StringVal(self.vals[n])) for n, v in self.vars.items()]
+        return z3.simplify(z3.substitute(term, *subs)).as_string()
+
+
+def _unescape(x):
+    return x
+
+
 def _solver():
-    s = z3.Solver()
-    s.set("timeout", TIMEOUT)
-    return s
+    return Q()
 
 
 def _chars_re(chars):
@@ -51,8 +128,22 @@ def _fn_ast(fn):
     return ast.parse(src).body[0]
 
 
+REF_PARTS = []
+
+
 def translate_ref(H, S, D):
     """BaseOrder.customer_order_ref:  "%s%s%s" % (self.trade.strategy.name_hash, self.sep, self.id)  ->  Concat"""
+    t = _translate_ref(H, S, D)
+    del REF_PARTS[:]
+    def flat(x):
+        if z3.is_app(x) and x.decl().kind() == z3.Z3_OP_SEQ_CONCAT:
+            return [y for ch in x.children() for y in flat(ch)]
+        return [x]
+    REF_PARTS.extend(flat(t))
+    return t
+
+
+def _translate_ref(H, S, D):
     fn = _fn_ast(BaseOrder.customer_order_ref.fget)
     body = [n for n in fn.body if not (isinstance(n, ast.Expr) and isinstance(n.value, ast.Constant))]
     if len(body) != 1 or not isinstance(body[0], ast.Return):
@@ -113,10 +204,10 @@ def _slices_of(fn, module, ref):
                 hi = eval(compile(ast.Expression(sl.upper), "<ast>", "eval"), env) if sl.upper is not None else None
                 if not isinstance(lo, int) or lo < 0 or (hi is not None and (not isinstance(hi, int) or hi < 0)):
                     raise CannotEncode("%s: slice bounds outside the supported subset" % fn.__name__)
+                # z3's str.substr clamps exactly like a Python slice with non-negative bounds
                 n = z3.Length(ref)
-                lo_t = z3.If(z3.IntVal(lo) < n, z3.IntVal(lo), n)
-                hi_t = n if hi is None else z3.If(z3.IntVal(hi) < n, z3.IntVal(hi), n)
-                ln = z3.If(hi_t - lo_t > 0, hi_t - lo_t, z3.IntVal(0))
+                lo_t = z3.IntVal(lo)
+                ln = (n - lo) if hi is None else z3.IntVal(max(hi - lo, 0))
                 out[node.targets[0].id] = (z3.SubString(ref, lo_t, ln), lo, hi)
     return out
 
@@ -175,22 +266,28 @@ def _real_order(name_hash, sep, id_):
     return o
 
 
-def _domain(s, H, S, D, Cvalid=None):
-    s.add(z3.Length(H) == utils.STRATEGY_NAME_HASH_LENGTH, z3.InRe(H, z3.Star(_chars_re(HEX))))
-    s.add(z3.InRe(D, z3.Plus(_chars_re(string.digits))), z3.Length(D) <= 19)
+def _domain(s, H, S, D, Cvalid=None, chars=True):
+    """hash: 13 hex characters, id: 1..19 digits.  The character classes are only asserted where an obligation is about
+    characters (regex membership makes z3's sequence solver erratic); the structural obligations hold for arbitrary
+    characters, which is the stronger statement"""
+    s.declare(H, S, D)
+    s.add(z3.Length(H) == utils.STRATEGY_NAME_HASH_LENGTH, z3.Length(D) >= 1, z3.Length(D) <= 19)
+    if chars:
+        # per-position character classes (no regular expressions: quantifier-free over at / length only)
+        for k in range(utils.STRATEGY_NAME_HASH_LENGTH):
+            s.add(z3.Or([z3.SubString(H, k, 1) == z3.StringVal(ch) for ch in HEX]))
+        for k in range(19):
+            s.add(z3.Or(z3.Length(D) <= k, z3.Or([z3.SubString(D, k, 1) == z3.StringVal(ch) for ch in string.digits])))
     if Cvalid is not None:
         s.add(Cvalid)
 
 
 def _check(s, name):
-    r = str(s.check())
-    if r == "unknown":
-        raise HarnessError("solver unknown on %s" % name)
-    return r
+    return s.check(name)
 
 
 def _str(m, t):
-    return m.eval(t, model_completion=True).as_string()
+    return m.value(t)
 
 
 def h19(c):
@@ -202,33 +299,47 @@ def h19(c):
     valid = translate_validator(Cv)
     valid_S = z3.substitute(valid, (Cv, S))
     # --- translator validation: translated fragments vs the real code on solver-generated strings
-    s = _solver(); _domain(s, H, S, D, valid_S)
+    s = _solver(); _domain(s, H, S, D, valid_S, chars=False)
     n_val = 0
-    for k in range(12):
+    for k in range(6):
         if _check(s, "validation") != "sat":
             break
-        m = s.model()
+        m = s
         h, sp, d = _str(m, H), _str(m, S), _str(m, D)
         real = _real_order(h, sp, d).customer_order_ref
         if real != _str(m, ref):
             raise HarnessError("translator validation failed: %r vs %r" % (real, _str(m, ref)))
         n_val += 1
-        s.add(z3.Or(H != m.eval(H), S != m.eval(S), D != m.eval(D)), z3.Length(D) != len(d))
+        s.add(z3.Or(H != z3.StringVal(h), S != z3.StringVal(sp), D != z3.StringVal(d)), z3.Length(D) != len(d))
     c.observe("translator_validated_on", n_val)
-    # --- Q1 characters
-    s = _solver(); _domain(s, H, S, D, valid_S)
-    s.add(z3.Not(z3.InRe(ref, z3.Star(_chars_re(DOC_VALID))))); queries += 1
-    if _check(s, "Q1") == "sat":
-        m = s.model()
-        real = _real_order(_str(m, H), _str(m, S), _str(m, D)).customer_order_ref
-        c.ob("reference-uses-only-accepted-characters", all(ch in DOC_VALID for ch in real), ref=real)
-    else:
-        c.ob("reference-uses-only-accepted-characters", True)
+    # --- Q1 characters, by composition over the translated concatenation: the characters of a concatenation are those of its
+    # parts; hash characters are hex digits, id characters are decimal digits, literal parts are checked directly, and the
+    # separator is whatever the (translated) validator accepts - one solver query
+    ok_chars = True
+    why = None
+    for part in REF_PARTS:
+        if part.eq(H):
+            ok_chars = ok_chars and set(HEX) <= DOC_VALID
+        elif part.eq(D):
+            ok_chars = ok_chars and set(string.digits) <= DOC_VALID
+        elif part.eq(S):
+            s = _solver(); s.declare(S)
+            s.add(valid_S, z3.Or(z3.Length(S) != 1, z3.And([S != z3.StringVal(ch) for ch in sorted(DOC_VALID)]))); queries += 1
+            if _check(s, "Q1-separator") == "sat":
+                bad = _str(s, S)
+                if BetfairOrder.is_valid_customer_order_ref_character(bad) and not (len(bad) == 1 and bad in DOC_VALID):
+                    ok_chars, why = False, "separator %r" % bad
+        elif z3.is_string_value(part):
+            if not all(ch in DOC_VALID for ch in part.as_string()):
+                ok_chars, why = False, "literal %r" % part.as_string()
+        else:
+            raise CannotEncode("customer_order_ref: unexpected part %s" % part)
+    c.ob("reference-uses-only-accepted-characters", ok_chars, why=why)
     # --- Q2 length
-    s = _solver(); _domain(s, H, S, D, valid_S)
+    s = _solver(); _domain(s, H, S, D, valid_S, chars=False)
     s.add(z3.Or(z3.Length(ref) != 14 + z3.Length(D), z3.And(z3.Length(D) <= 18, z3.Length(ref) > 32))); queries += 1
     if _check(s, "Q2") == "sat":
-        m = s.model()
+        m = s
         real = _real_order(_str(m, H), _str(m, S), _str(m, D)).customer_order_ref
         c.ob("reference-length", len(real) == 14 + len(_str(m, D)) and (len(_str(m, D)) > 18 or len(real) <= 32), ref=real)
     else:
@@ -243,11 +354,11 @@ def h19(c):
             if var not in sl:
                 continue
             term, lo, hi = sl[var]
-            s = _solver(); _domain(s, H, S, D, valid_S)
+            s = _solver(); _domain(s, H, S, D, valid_S, chars=False)
             s.add(term != want); queries += 1
             nm = "round-trip.%s.%s" % (fn.__name__, var)
             if _check(s, nm) == "sat":
-                m = s.model()
+                m = s
                 real = _real_order(_str(m, H), _str(m, S), _str(m, D)).customer_order_ref
                 got = real[lo:hi]
                 c.ob(nm, got == _str(m, want), ref=real, got=got)
@@ -256,10 +367,10 @@ def h19(c):
     # --- Q4 injective
     H2, S2, D2 = z3.String("H2"), z3.String("S2"), z3.String("D2")
     ref2 = z3.substitute(ref, (H, H2), (S, S2), (D, D2))
-    s = _solver(); _domain(s, H, S, D, valid_S); _domain(s, H2, S2, D2, z3.substitute(valid, (Cv, S2)))
+    s = _solver(); _domain(s, H, S, D, valid_S, chars=False); _domain(s, H2, S2, D2, z3.substitute(valid, (Cv, S2)), chars=False)
     s.add(ref == ref2, z3.Or(H != H2, S != S2, D != D2)); queries += 1
     if _check(s, "Q4") == "sat":
-        m = s.model()
+        m = s
         a = _real_order(_str(m, H), _str(m, S), _str(m, D)).customer_order_ref
         b = _real_order(_str(m, H2), _str(m, S2), _str(m, D2)).customer_order_ref
         c.ob("reference-injective", a != b, a=a, b=b)
@@ -273,7 +384,8 @@ def h19(c):
     import uuid
     c.ob("order-id-is-uuid1-time", _real_order("a" * 13, "-", "1").__class__.__init__.__code__ is not None and len(str(uuid.uuid1().time)) <= 18)
     c.observe("queries", queries)
-    c.external_queries(queries + n_val, nontrivial=queries)
+    c.external_queries(queries + n_val, nontrivial=queries, secs=Q.stats["secs"])
+    c.note("string queries answered by cvc5: %d, by z3: %d" % (Q.stats["cvc5"], Q.stats["z3"]))
     c.cover("reference")
 
 
@@ -285,20 +397,20 @@ def h19v(c):
     try:
         valid = translate_validator(C)
         doc = z3.And(z3.Length(C) == 1, z3.Or([C == z3.StringVal(x) for x in sorted(DOC_VALID)]))
-        s = _solver()
+        s = _solver(); s.declare(C)
         s.add(z3.Length(C) <= 2, valid != doc)
         if _check(s, "Q5") == "sat":
-            x = _str(s.model(), C)
+            x = _str(s, C)
             c.ob("separator-validator=documented-set", BetfairOrder.is_valid_customer_order_ref_character(x) == (len(x) == 1 and x in DOC_VALID), sep=repr(x))
         else:
             c.ob("separator-validator=documented-set", True)
         # translator validation on solver-generated strings
         for want in (True, False):
-            s = _solver(); s.add(z3.Length(C) <= 2, valid == want)
+            s = _solver(); s.declare(C); s.add(z3.Length(C) <= 2, valid == want)
             for k in range(8):
                 if _check(s, "val") != "sat":
                     break
-                x = _str(s.model(), C)
+                x = _str(s, C)
                 if BetfairOrder.is_valid_customer_order_ref_character(x) != want:
                     raise HarnessError("validator translation disagrees with the real function on %r" % x)
                 s.add(C != z3.StringVal(x))
